@@ -112,12 +112,14 @@ static carquet_status_t delta_decoder_init(delta_decoder_t* dec,
     /* Block size */
     bytes = read_uleb128(data + dec->pos, size - dec->pos, &val);
     if (bytes == 0) return CARQUET_ERROR_DECODE;
+    if (val > DELTA_BLOCK_SIZE) return CARQUET_ERROR_DECODE;
     dec->block_size = (int32_t)val;
     dec->pos += bytes;
 
     /* Mini-blocks per block */
     bytes = read_uleb128(data + dec->pos, size - dec->pos, &val);
     if (bytes == 0) return CARQUET_ERROR_DECODE;
+    if (val > DELTA_MINI_BLOCKS) return CARQUET_ERROR_DECODE;
     dec->mini_blocks_per_block = (int32_t)val;
     dec->pos += bytes;
 
@@ -133,9 +135,19 @@ static carquet_status_t delta_decoder_init(delta_decoder_t* dec,
         return CARQUET_ERROR_DECODE;
     }
 
+    /* The format requires the block size to be a multiple of 128 and the number
+     * of values per mini-block to be a multiple of 32 (the bit-unpacker reads
+     * whole groups of 8 values) */
+    if (dec->block_size % 128 != 0 ||
+        dec->block_size % dec->mini_blocks_per_block != 0 ||
+        (dec->block_size / dec->mini_blocks_per_block) % 32 != 0) {
+        return CARQUET_ERROR_DECODE;
+    }
+
     /* Total value count */
     bytes = read_uleb128(data + dec->pos, size - dec->pos, &val);
     if (bytes == 0) return CARQUET_ERROR_DECODE;
+    if (val > INT32_MAX) return CARQUET_ERROR_DECODE;
     dec->total_values = (int32_t)val;
     dec->pos += bytes;
 
